@@ -3,6 +3,7 @@ CONSTANTS
   CombSet = {"WhenAll", "WhenAny"}
   N = 6
   Fixed = TRUE
+  Follow = FALSE
 INVARIANT NoViolation
 INVARIANT Structural
 CHECK_DEADLOCK FALSE
